@@ -33,7 +33,7 @@ enum OpKind
   OP_RT_SETVALUE,   // a=key c=dst slot
   OP_ATTACH_DERIVED  // a=key b=token index: Attach(GetCurrent().SetValue(key, v))
 };
-const int kSlots = 40, kTokens = 40, kScopes = 8, kSpans = 4, kBase = 3;
+const int kSlots = 80, kTokens = 80, kScopes = 12, kSpans = 4, kBase = 3;
 const int kKeys        = 4;
 const char *kKeyName[] = {"k0", "k1", "key-two", ""};  // includes the empty key
 
@@ -366,7 +366,7 @@ void generate(const std::string &, Rng &wl, Rng &fl, Case &c)
   for (int t = 0; t < ntasks; ++t)
   {
     TaskProg p;
-    int n = (int)wl.range(5, 40);
+    int n = (int)wl.range(5, vsim::tier_scale() > 1 && wl.chance(0.5) ? 70 : 40);
     std::vector<int> my_slots;  // slots this task has (tried to) create
     int ntok = 0, nscope = 0;
     std::vector<int> live_tok, live_scope;
